@@ -30,11 +30,11 @@ EPS = 1e-6
 def plan(tier):
     if tier == 'thorough':
         return {'shards': 16, 'timeout_s': 1700}
-    return {'shards': 4, 'timeout_s': 280}
+    return {'shards': 8, 'timeout_s': 280}
 
 
 def n_cases(tier):
-    return 12000 if tier == 'thorough' else 200
+    return 12000 if tier == 'thorough' else 500
 
 
 def one_case(rng, tier):
